@@ -224,6 +224,9 @@ class Package:
                 tree = ast.parse(src, filename=path)
             except SyntaxError as e:
                 raise AnalysisError(f"syntax error in {path}: {e}")
+            if os.environ.get("VERIF_NO_CANON") != "1":
+                from .canon import canonicalise
+                tree = canonicalise(tree)
             mi = ModuleInfo(fn[:-3], fn, path, src, tree)
             self.modules[mi.name] = mi
             self._index(mi)
